@@ -366,6 +366,8 @@ def shards(tier, seed):
     n = 300 if tier == "quick" else 5000
     for i in range(12):
         specs.append({"mode": "random", "seed": seed * 1000 + i, "n": n})
+    for i in range(4):
+        specs.append({"mode": "machine", "seed": seed * 1000 + 500 + i, "n": 60 if tier == "quick" else 1500, "steps": 30 if tier == "quick" else 60})
     return specs
 
 
@@ -374,10 +376,16 @@ def run_shard(spec, ctx):
         cat = catalog()
         for name in spec["entries"]:
             progs.sweep(ctx, cat[name]["prog"], name, evaluate, account, double=spec.get("double"), extra={"entry": name, "max_vtime": 300})
+    elif spec["mode"] == "machine":
+        import machines
+        machines.run_machine(machines.make_poll_machine, ctx, spec["seed"], spec["n"], spec["steps"])
     else:
         progs.random_search(ctx, spec, case_strategy(), evaluate, account)
 
 
 def replay(case):
+    if case.get("machine") == "poll":
+        import machines
+        return machines.replay_poll(case)
     viols, info = evaluate(case)
     return viols
